@@ -200,6 +200,41 @@ FreeSimNext == /\ n < Depth /\ FreeActs # {}
                /\ \E act \in {RandomElement(FreeActs)} :
                     /\ S' = FreeStepOf(S, act) /\ lastAct' = act /\ n' = n + 1 /\ M' = M /\ hist' = hist
 FreeSimSpec == FreeInit /\ [][FreeSimNext]_vars
+\* ---------------------------------------------------------------- liveness of the shutdown (free grain, weakly fair)
+\* stop() is called at the end of the prefix.  From then on the environment lets time pass, may lose connections and may
+\* answer the node's DPR; the node's threads (stopping thread, I/O loop, readers, writers, statistics, application
+\* consumers) interleave freely, one step at a time.  Under weak fairness of the step relation - a thread that can run
+\* does run, time passes when nothing else can happen - stop() returns (C18: "when stop returns ..." presupposes it does),
+\* and it returns with every connection socket closed and the I/O thread ended.  No depth bound and no history
+\* variables here (n, hist, lastAct, M stay constant): a state constraint would hide non-progress cycles.
+\* STATUS: experimental, not used by any registered check.  The first run (without the timing assumption below) produced a
+\* genuine counterexample of the model: ticks may pass while the I/O thread is never scheduled, the stopping thread's
+\* bounded join gives up and stop() returns with the I/O thread alive.  With the assumption TLC did not exhaust the graph
+\* within 25 minutes (1.7 M states, depth > 2 500 at a constant frontier: some component of S still grows under free
+\* interleaving at a fixed instant); finding it is open work (DESIGN.md section 12).
+LiveEnv ==
+  \* (timing assumption: a second passes only when no thread of the node can run - threads are not starved for seconds;
+  \*  without it the stopping thread's bounded joins may give up on a thread that was simply never scheduled)
+  (IF S.now < MaxTime /\ Steps(S) = {} THEN {[a |-> "tick"]} ELSE {}) \cup
+  (IF Faults THEN {[a |-> "peer_close", c |-> c] : c \in {x \in ConnIds : Usable(x)}} ELSE {}) \cup
+  (IF "dpa" \in Alpha
+     THEN {[a |-> "feed", c |-> c, ms |-> <<Mk("DP", 282, FALSE, 1, 1, 0, PeerOrder[1], "", 2001, FALSE, TRUE, FALSE, <<>>, <<>>, FALSE)>>]
+             : c \in {x \in ConnIds : Whole(x) /\ S.conn[x].st = "DISCONNECTING" /\ S.conn[x].netIn = <<>>}}
+     ELSE {})
+LiveActs == LiveEnv \cup {[a |-> "step", th |-> st.th, c |-> st.c] : st \in Steps(S)}
+LiveInit == LET S1 == StepOf(InitState, StartAct)
+                R  == RunPrefix(S1, MonInit, PrefixActs)
+            IN /\ S = [Apply(R.S, [a |-> "stop", force |-> FALSE, wait |-> 2]) EXCEPT !.out = <<>>]
+               /\ n = 0 /\ lastAct = StartAct /\ hist = <<>> /\ M = MonInit
+LiveNext == /\ \E act \in LiveActs : S' = [FreeStepOf(S, act) EXCEPT !.out = <<>>]
+            /\ UNCHANGED <<n, lastAct, hist, M>>
+LiveSpec == LiveInit /\ [][LiveNext]_vars /\ WF_vars(LiveNext)
+StopReturns == <>(S.stop.phase = "done")
+ClosedWhenStopped == S.stop.phase = "done" =>
+  /\ S.io.done
+  /\ \A c \in ConnIds : S.conn[c].used => S.conn[c].sock = "closed"
+  /\ S.connections = <<>>
+
 \* nothing the node accepted for a connection is dropped by a clean close (pinned F18c violates this under some interleaving)
 NoOutputLost == S.overflow \/ S.lostOut = 0
 \* the connection tables agree with each other after every thread step
